@@ -12,6 +12,9 @@ class AbstractMessagingTransport(Transport, metaclass=abc.ABCMeta):
     async def next_frame_generator(self):
         frame = await self._incoming_frame_queue.get()
 
+        if frame is None:
+            return None  # the connection was closed
+
         if isinstance(frame, Exception):
             raise frame
 
